@@ -3,8 +3,11 @@ available is fully readable from the blobstor or the write-cache.
 
 1. TLC exhaustive on spec/Shard.tla at micro-step level (a crash is possible after EVERY component call): invariant
    C15ModKF holds in every reachable state, hence after a crash + restart at any step boundary.  The as-is model
-   admits one known-finding class: deleteObjs (and a forced MarkGarbage) drop the write-cache copy of a still
-   AVAILABLE object before its metabase record (kf15 = wcfirst / marklocked); everything else is strict.
+   admits three known-finding classes, all "a STORED record loses its only data copy while the record stays"
+   (kf15): wcfirst = deleteObjs drops the write-cache copy before the metabase record (+ crash), marklocked = forced
+   MarkGarbage drops the cache copy at once, putrollback = the rollback of a rejected re-put deletes the data of the
+   earlier put; the record is available at once (redundant copy, direct delete, locked) or becomes so when a LOCK is
+   stored later.  Everything else (put order, flush order, blob-after-metadata in deleteObjs ...) is strict.
 2. TLC -simulate (spec/ShardGen.tla) behaviours with crash points and blobstor faults + hand-chosen crash scripts
    for every boundary are executed on a REAL shard.Shard; a crash = panic at the verifhook point / blobstor call,
    Shard.Close, reopen on the same files; after EVERY event every address is read back (Exists + Get + bytes).
@@ -19,7 +22,8 @@ import sharda_util as su
 LEVEL = "model_checking"
 
 SIG = {"wcfirst": "available-object:cache-copy-deleted-before-metabase-record(deleteObjs)+crash",
-       "marklocked": "locked-object:forced-garbage-mark-drops-cache-copy"}
+       "marklocked": "locked-object:forced-garbage-mark-drops-cache-copy",
+       "putrollback": "stored-object:rejected-re-put-rollback-deletes-its-data"}
 
 
 def P(a, crash=0):
@@ -62,6 +66,10 @@ def deliberate():
         out.append({"wc": wc, "batch": 2, "steps": [P(1), P(2), FL(crash=1), FL(fail=1), FL(crash=2), FL(), D(1, [1, 2])]})  # flush
         out.append({"wc": wc, "batch": 2, "steps": [P(2), P(4), M(1, [2]), RT, GC(), EP, EP, EP, GC(), GC()]})   # forced mark of a locked object
         out.append({"wc": wc, "batch": 2, "steps": [P(5), P(6), {"op": "InhumeCnr", "c": 2}, GC(crash=2), GC(crash=4), GC(), GC()]})
+        # variants found by the thorough tier: a lock stored LATER makes a record without data available again
+        out.append({"wc": wc, "batch": 1, "steps": [EP, P(2), EP, FL(), P(2), P(4), RT, EP, GC(), GC(), GC()]})          # rejected re-put rolls the stored data back
+        out.append({"wc": wc, "batch": 2, "steps": [EP, EP, P(2), GC(crash=1), P(4), RT, EP, GC(), GC()]})              # expired, cache copy gone, crash, lock
+        out.append({"wc": wc, "batch": 2, "steps": [P(2), M(1, [2]), GC(crash=1), P(4), RT, GC(), GC()]})               # marked, cache copy gone, lock
     return out
 
 
@@ -71,6 +79,8 @@ def run(ck):
     world = su.detect_world(ck, binp)
     if not ck.replay and not os.environ.get("VERIF_SKIP_MODEL"):   # (dev aid for mutation runs: the model check does not depend on the tree)
         ck.tlc_model("Shard", "Shard_C15t.cfg" if thorough else "Shard_C15.cfg", timeout=3000, files=su.cfg_files(world, "Shard_C15t.cfg" if thorough else "Shard_C15.cfg"))
+        if thorough:
+            ck.tlc_model("Shard", "Shard_C15l.cfg", timeout=3000, files=su.cfg_files(world, "Shard_C15l.cfg"))   # expiry + LOCK + forced marks
         ck.setcov("exhaustive", True)
         ck.setcov("constants", ("Objs={1,2 exp1,3 TS->1} wc=on batch=1 epochs 0..2, all ops, crash + flush fault" if thorough else
                                 "Objs={1 REG,2 REG exp 1} wc in {off,on} batch=1 epochs 0..2; Put Delete GC Flush Epoch MarkRed") +
